@@ -242,6 +242,8 @@ def connect_graph(graph, index, search_size=10, n_jobs=None):
     )
 
     for i, j, d in new_edges:
+        if d == 0.0:
+            d = FLOAT32_EPS
         result[i, j] = d
         result[j, i] = d
 
